@@ -37,14 +37,14 @@ ASSUMPTIONS = [
 LEAVES = {
     "a": ("a", "bulk", ["x"], 2),
     "b": ("b", "search", "xy", 1),
-    "ab": ("ab", "search", ["x", "y", "search"], 1),  # one tag equals an operation type
+    "ab": ("ab", "scroll-search", ["x", "y", "search"], 1),  # one tag equals an operation type; its own type contains another type's name
     "d": ("d", "raw-request", None, 3),
     "x": ("x", "bulk", "x", 1),  # its name equals a tag value
 }
 # the second challenge: an unrelated task and a task that equals leaf "a" of the first challenge (name, operation, settings) except for its
 # tags -- decisions must be made per task, not per "equal" task
 OTHER = [("zz-other", "search", ["x"], 1), ("a", "bulk", ["y"], 2)]
-FILTERS = ["a", "b", "ab", "d", "x", "zz", "type:bulk", "type:search", "type:raw-request", "type:composite", "tag:x", "tag:y", "tag:xy", "tag:z", "tag:search",
+FILTERS = ["a", "b", "ab", "d", "x", "zz", "type:bulk", "type:search", "type:raw-request", "type:composite", "type:scroll-search", "tag:x", "tag:y", "tag:xy", "tag:z", "tag:search",
            # the name of the OPERATION of task a (tasks are selected by their own name only)
            "a-op"]
 MALFORMED = ["foo:bar", "a:b:c", "tags:x"]
@@ -242,7 +242,7 @@ def check_raced(spec, flts, exclude, res):
     racesim.setup()
     # runnable leaves: the custom verif operation registered under per-type names, so that type: filters still discriminate
     e = loadgen.setup()
-    for typ in ("bulk", "search", "raw-request"):
+    for typ in sorted({t for _n, t, _g, _c in LEAVES.values()}):
         vt = "v-" + typ
         try:
             e["runner"].runner_for(vt)
